@@ -223,3 +223,28 @@ Theorem compiled_scripts_correct_distinct_labels :
              (run sfinal (sstep St exec flag_set trainer_beaten cmp_var cmp_var_value case_matches (fun l => fl_body l body Kstop)) n (enter body Kstop) s)).
 Proof. exact C01Top.compiled_scripts_correct_distinct_labels. Qed.
 Print Assumptions compiled_scripts_correct_distinct_labels.
+
+(* ---------- C01 from the source text, no validator of the compiler's work left ---------- *)
+(* wf_render and labels_okb are theorems (RenderFromSource.v).  The remaining premises speak about what the AUTHOR wrote:
+   labels pairwise distinct; names_okb - an AutoVar command is not called end / return / goto, a goto names a label of the
+   script or no label of the emitted script (it does not imitate a generated name) - and fewer than 10^40 chunks. *)
+Theorem compiled_scripts_correct_from_source :
+  forall (St : Type) (exec : cmd -> St -> stepres St) (flag_set trainer_beaten : text -> St -> bool)
+         (cmp_var cmp_var_value : text -> text -> St -> comparison) (case_matches : text -> text -> St -> bool)
+         hl hd hs autovars switches ee fc cli_font cli_maxlen (src : text) (p : program),
+  parse_program autovars switches ee (parse_format fc cli_font cli_maxlen ee) (lex hl hd hs src) = Parser.Ok p ->
+  forall body, In body (ProgWf.bodies_of (tops p)) ->
+  NoDup (WorkLabels.dlabs body) ->
+  forall (mp : option text) (tl : list text) (name : text) (glob optimize : bool) (w : wst) (code : list instr),
+  emit_graph body = Ok w ->
+  emit_script mp tl name glob optimize body = Ok code ->
+  RenderFromSource.names_okb (finals w) code = true ->
+  (Z.of_nat (List.length (finals w)) <= 10 ^ 40)%Z ->
+  (forall n s, exists m,
+      run sfinal (sstep St exec flag_set trainer_beaten cmp_var cmp_var_value case_matches (fun l => fl_body l body Kstop)) n (enter body Kstop) s =
+      run (@tfinal) (tstep St exec flag_set trainer_beaten cmp_var cmp_var_value case_matches code) m (jump code name) s) /\
+  (forall m s, exists n,
+      res_le (run (@tfinal) (tstep St exec flag_set trainer_beaten cmp_var cmp_var_value case_matches code) m (jump code name) s)
+             (run sfinal (sstep St exec flag_set trainer_beaten cmp_var cmp_var_value case_matches (fun l => fl_body l body Kstop)) n (enter body Kstop) s)).
+Proof. exact C01Top.compiled_scripts_correct_from_source. Qed.
+Print Assumptions compiled_scripts_correct_from_source.
